@@ -350,7 +350,9 @@ class Mesh:
             cumsum += eta_sqr[i]
             if cumsum >= eta_tot_sqr * theta**2:
                 break
-        assert np.sqrt(cumsum) >= theta * np.sqrt(eta_tot_sqr)
+        # Same comparison as in the loop above (comparing square roots can fail
+        # by one ulp when the bulk criterion is met with equality).
+        assert cumsum >= eta_tot_sqr * theta**2 or len(marked) == N
         print('Marked {} / {} elements'.format(len(marked), N))
 
         # First refine in time.
@@ -385,7 +387,10 @@ class Mesh:
             cumsum += val
             if cumsum >= eta_tot_sqr * theta**2:
                 break
-        assert np.sqrt(cumsum) >= theta * np.sqrt(eta_tot_sqr)
+        # Same comparison as in the loop above (comparing square roots can fail
+        # by one ulp when the bulk criterion is met with equality).
+        assert cumsum >= eta_tot_sqr * theta**2 or len(marked[0]) + len(
+            marked[1]) == 2 * N
         print('Marked {} elements for time refinemenent.'.format(len(
             marked[0])))
         print('Marked {} elements for space refinemenent.'.format(
